@@ -5,6 +5,7 @@ import elin
 import elock
 import kinds
 import eevent
+import edbg
 
 LEVEL = "E-LOCK + E-FREELIST + E-CACHE.dm + E-LIN/E-WRAP on the parallel code"
 
@@ -27,6 +28,7 @@ def run(ctx):
     elock.run_rc_under_lock(ctx, F)
     elock.run_send_sync(ctx, F)
     efreelist.run(ctx, F)
+    edbg.run(ctx, F)
     ctx.explain("E-EVENT (gc protocol): a collection may run while other threads operate under the shared manager lock; "
                 "what keeps them apart is the bracket try_lock -> epoch bump -> pre_gc (cache locked) -> level sweeps -> "
                 "terminal sweep -> post_gc (cache unlocked) -> unlock, on every path, in both managers.")
